@@ -110,8 +110,42 @@ static void run_allpairs(uint64_t idx, pv_rng* rng) {
     PV_COUNT("allpairs.rows", 1);
     pv_api_free(s);
 }
-static void fini(void) { pv_set_flag("exhaustive.all_2048x2047_coin_pairs_for_two_seeds", pv.tier == 1); }
+/* every coin once per language for one seed: the second word then runs through the whole word list, so a word that
+ * is recognised as another one (or not at all) breaks the binding for the coin that selects it */
+static uint64_t n_allcoins(void) { return (uint64_t)pv_nlangs * 32 * pv_scaled(1, 4); }
+static void run_allcoins(uint64_t idx, pv_rng* rng) {
+    pv_mlang* L = &pv_langs[idx % (uint64_t)pv_nlangs];
+    if (!L->lib) return;
+    uint64_t k = idx / (uint64_t)pv_nlangs; unsigned blk = (unsigned)(k % 32); uint64_t seed_i = k / 32;
+    pv_rng sr; pv_rng_seed(&sr, pv.seed, 0xa11c, seed_i * 16 + (idx % (uint64_t)pv_nlangs));
+    pv_mseed m; pv_gen_mseed(&sr, 7, true, &m);
+    polyseed_data* s = pv_seed_from_model(&m);
+    if (!s) return;
+    uint8_t* img = malloc(32); uint8_t mi[32]; pv_m_image(&m, mi);
+    for (unsigned A = blk * 64; A < (blk + 1) * 64; ++A) {
+        pv_api_encode(s, L->lib, A, g_a);
+        char* in = pv_exact_str(g_a); polyseed_data* d = NULL;
+        int st = pv_api_decode_explicit(in, A, L->lib, &d);
+        PV_COUNT("evaluations", 1);
+        if (st != POLYSEED_OK) pv_violation("C05/own-coin-rejected", "%s coin %u seed %s -> %s; phrase '%s'", L->name_en, A, pv_mseed_str(&m), pv_status_name(st), pv_esc(in));
+        else { pv_api_store(d, img); if (memcmp(img, mi, 32)) pv_violation("C05/own-coin-other-seed", "%s coin %u: decodes to %s instead of %s", L->name_en, A, pv_hex(img, 32), pv_hex(mi, 32)); else PV_COUNT("allcoins.own_coin_ok", 1); pv_api_free(d); }
+        for (int j = 0; j < 3; ++j) {
+            unsigned B = j == 0 ? (A ^ 1) : j == 1 ? (A ^ (1u << pv_randn(rng, 11))) : pv_randn(rng, 2048);
+            if (B == A) continue;
+            d = NULL; st = pv_api_decode_explicit(in, B, L->lib, &d);
+            PV_COUNT("evaluations", 1);
+            if (st != POLYSEED_ERR_CHECKSUM) { pv_violation("C05/other-coin-accepted", "%s: phrase for coin %u decoded with coin %u -> %s; seed %s", L->name_en, A, B, pv_status_name(st), pv_mseed_str(&m)); if (st == POLYSEED_OK) pv_api_free(d); }
+            else PV_COUNT("pairs.rejected_with_checksum", 1);
+        }
+        free(in);
+    }
+    PV_DISTINCT("nontrivial", pv_mix(pv_mix(pv_mseed_hash(&m), 0xa11c0 + blk), pv_hash_str(L->key)));
+    free(img);
+    pv_api_free(s);
+}
+static void fini(void) { pv_set_flag("exhaustive.all_2048x2047_coin_pairs_for_two_seeds", pv.tier == 1);
+    pv_set_flag("exhaustive.every_coin_as_own_coin_per_language(one seed)", pv.scale_pct >= 100); }
 int main(int argc, char** argv) {
-    static const pv_section secs[] = { { "rows", n_rows, run_rows }, { "allpairs", n_allpairs, run_allpairs } };
-    return pv_main(argc, argv, "C05", secs, 2, init, fini);
+    static const pv_section secs[] = { { "rows", n_rows, run_rows }, { "allpairs", n_allpairs, run_allpairs }, { "allcoins", n_allcoins, run_allcoins } };
+    return pv_main(argc, argv, "C05", secs, 3, init, fini);
 }
